@@ -15,6 +15,13 @@ def load(prop):
     return importlib.import_module('concrete.b%s' % prop[1:])
 
 
+def _safe(pred, v):
+    try:
+        return bool(pred(v['case'], v['clause'], v['input']))
+    except Exception:
+        return False
+
+
 def main():
     ap = argparse.ArgumentParser()
     ap.add_argument('mode')
@@ -29,6 +36,9 @@ def main():
         ctx = common.Ctx(a.prop, a.tier, a.seed, mod.CASES)
         mod.enumerate_cases(ctx)
         res = ctx.result()
+        kc = getattr(mod, 'KNOWN_CLASSES', {})
+        for v in res['violations']:
+            v['classes'] = [n for n, pred in kc.items() if _safe(pred, v)]
         res['contracts'] = getattr(mod, 'CONTRACTED', [])
         with open(a.out, 'w') as f:
             json.dump(res, f, default=str)
@@ -37,8 +47,9 @@ def main():
         out = []
         for it in items:
             fails, _ = common.eval_case(mod.CASES, it['case'], it['input'])
+            kc = getattr(mod, 'KNOWN_CLASSES', {})
             out.append({'case': it['case'], 'input': it['input'],
-                        'fails': [{'clause': c, 'detail': d} for c, d in fails]})
+                        'fails': [{'clause': c, 'detail': d, 'classes': [n for n, pred in kc.items() if _safe(pred, {'case': it['case'], 'clause': c, 'input': it['input']})]} for c, d in fails]})
         with open(a.rest[1], 'w') as f:
             json.dump(out, f, default=str)
     else:
